@@ -38,7 +38,7 @@ from translate import common as C
 os.environ['SCARED_VERIF'] = '1'          # the hook is read at call time
 
 ID = 'C11'
-TRANSLATORS = []
+TRANSLATORS = ['kernels']
 MODEL_TARGETS = ['theories/Model/Kernels.vo']
 PROP_TARGET = 'theories/Props/C11.vo'
 EXHAUSTIVE = False
@@ -588,10 +588,7 @@ class KernelKind(Kind):
         return f
 
     def tags(self, case, obs):
-        t = ['kernels', 'kernels_' + case['kind'], case['sig']]
-        if case['kind'] == 'part':
-            t.append(case['metric'].lower())
-        return t
+        return ['kernels_' + case['kind']]
 
     def sample(self, case, obs):
         c = dict(case, traces=case['traces'][:4], data=case['data'][:4], runs=case['runs'][:4])
